@@ -111,8 +111,8 @@ def run(F, ck, tier):
         E.check('R09.2', spec)
     for fq, core, lk, ctl in VANISH:
         E.check('R09.3', dict(id='vanish.core:' + fq.split('::')[-1], fn=fq, crate='starky', kind='call', callee=core, src=['p:stark', 'p:vars', 'p:consumer'], ctx={'uncond': True, 'noloop': True}, why='the STARK\'s own constraints are always evaluated'))
-        E.check('R09.3', dict(id='vanish.lookups:' + fq.split('::')[-1], fn=fq, crate='starky', kind='call', callee=lk, src=['p:stark', 'p:vars', 'p:lookup_vars', 'p:consumer'] + (['p:lookups'] if 'circuit' not in fq else []), why='lookup constraints evaluated when lookup data is present'))
-        E.check('R09.3', dict(id='vanish.ctl:' + fq.split('::')[-1], fn=fq, crate='starky', kind='call', callee=ctl, src=['p:vars', 'p:ctl_vars', 'p:consumer', 'c:constraint_degree'], why='CTL constraints evaluated when CTL data is present'))
+        E.check('R09.3', dict(id='vanish.lookups:' + fq.split('::')[-1], fn=fq, crate='starky', kind='call', callee=lk, src=['p:stark', 'p:vars', 'p:lookup_vars', 'p:consumer'] + (['p:lookups'] if 'circuit' not in fq else []), ctx={'only_cond': ['lookup_vars', 'stark']}, why='lookup constraints evaluated when lookup data is present (and on nothing else)'))
+        E.check('R09.3', dict(id='vanish.ctl:' + fq.split('::')[-1], fn=fq, crate='starky', kind='call', callee=ctl, src=['p:vars', 'p:ctl_vars', 'p:consumer', 'c:constraint_degree'], ctx={'only_cond': ['ctl_vars', 'stark']}, why='CTL constraints evaluated when CTL data is present (and on nothing else: not in an else-branch of the lookup block)'))
     # R09.4 via the C04 machinery restricted to STARK
     sub = _Sub(ck, 'R09.4')
     stark_transcript(F, sub)
